@@ -424,27 +424,36 @@ def readerDims (w h k : Nat) : Nat × Nat := (max (w >>> k) 1, max (h >>> k) 1)
 
 /-! ## 4. `scale_down` -/
 
-/-- `scale_down(filt, src_width, src_height, width, height, src, dest)`: the new contents of
-`dest` (every element of `dest` is overwritten). `filt` is `FilterMode.value` (0–3 nearest variants,
-4 bilinear). Returns `none` for an unknown filter (`ValueError`). -/
-def scaleDown (filt sw sh w h : Nat) (src : List Nat) : Option (List Nat) :=
+/-- the offsets `scale_down` computes: `(horiz_off, per_column, vert_off, per_row)`. -/
+def scaleOffs (sw sh w h : Nat) : Nat × Nat × Nat × Nat :=
   let horizOff := if w ≠ sw then 4 else 0
   let perColumn := if w ≠ sw then 2 else 1
   let vertOff := if h ≠ sh then 4 * perColumn * w else 0
   let perRow := if h ≠ sh then 2 * perColumn * w else perColumn * w
-  let a := src.toArray
-  let at' (i : Nat) : Nat := a.getD i 0
-  if filt < 4 then
-    let posOff := [0, horizOff, vertOff, vertOff + horizOff].getD filt 0
-    some ((List.range (4 * (w * h))).map fun i =>
-      let p := i / 4; let ch := i % 4; let y := p / w; let x := p % w
-      at' (4 * (perRow * y + perColumn * x) + posOff + ch))
-  else if filt = 4 then
-    some ((List.range (4 * (w * h))).map fun i =>
-      let p := i / 4; let ch := i % 4; let y := p / w; let x := p % w
-      let off2 := 4 * (perRow * y + perColumn * x)
-      (at' (off2 + ch) + at' (off2 + ch + horizOff) + at' (off2 + ch + vertOff)
-        + at' (off2 + ch + vertOff + horizOff)) / 4)
+  (horizOff, perColumn, vertOff, perRow)
+
+/-- element `i` of `dest` after a nearest-neighbour `scale_down` (`filt` 0–3). -/
+def nearestAt (filt sw sh w h : Nat) (a : Array Nat) (i : Nat) : Nat :=
+  let (horizOff, perColumn, vertOff, perRow) := scaleOffs sw sh w h
+  let posOff := [0, horizOff, vertOff, vertOff + horizOff].getD filt 0
+  let p := i / 4; let ch := i % 4; let y := p / w; let x := p % w
+  a.getD (4 * (perRow * y + perColumn * x) + posOff + ch) 0
+
+/-- element `i` of `dest` after a bilinear `scale_down`. -/
+def bilinearAt (sw sh w h : Nat) (a : Array Nat) (i : Nat) : Nat :=
+  let (horizOff, perColumn, vertOff, perRow) := scaleOffs sw sh w h
+  let p := i / 4; let ch := i % 4; let y := p / w; let x := p % w
+  let off2 := 4 * (perRow * y + perColumn * x)
+  (a.getD (off2 + ch) 0 + a.getD (off2 + ch + horizOff) 0 + a.getD (off2 + ch + vertOff) 0
+    + a.getD (off2 + ch + vertOff + horizOff) 0) / 4
+
+/-- `scale_down(filt, src_width, src_height, width, height, src, dest)`: the new contents of
+`dest` (every element of `dest` is overwritten, element `4·(width·y + x) + channel` for every
+`y, x, channel` of the loops). `filt` is `FilterMode.value` (0–3 nearest variants, 4 bilinear).
+Returns `none` for an unknown filter (`ValueError`). -/
+def scaleDown (filt sw sh w h : Nat) (src : List Nat) : Option (List Nat) :=
+  if filt < 4 then some ((List.range (4 * (w * h))).map (nearestAt filt sw sh w h src.toArray))
+  else if filt = 4 then some ((List.range (4 * (w * h))).map (bilinearAt sw sh w h src.toArray))
   else none
 
 /-- pixel component `(x, y, ch)` of an RGBA array of row length `w`. -/
@@ -466,6 +475,10 @@ def envmapFlag : Nat := 0x4000
 def depthSeq (flags minor depth : Nat) : List Nat :=
   if flags &&& envmapFlag ≠ 0 then (if minor ≥ 5 then List.range 6 else List.range 7)
   else List.range depth
+
+/-- number of sides / depth slices: the length of `depthSeq`. -/
+def sideCount (flags minor depth : Nat) : Nat :=
+  if flags &&& envmapFlag ≠ 0 then (if minor ≥ 5 then 6 else 7) else depth
 
 /-- keys `(frame, depth|side, mipmap)` in the order the image data is stored in a file. -/
 def fileKeys (mipCount frameCount : Nat) (dseq : List Nat) : List (Nat × Nat × Nat) :=
